@@ -344,6 +344,16 @@ v("break-c08-keyword-values", "break", "C08", "LIT-TYPE", [
     (P, "\t// if it contains unescaped wildcards then it is a wildcard string", "\tif token.Val == \"null\" {\n\t\treturn expr.Lit(\"\"), nil\n\t}\n\n\t// if it contains unescaped wildcards then it is a wildcard string"),
 ], "the word null becomes the empty string")
 
+v("break-c04-param-only-limit", "break", "C04", "SIB-ERR", [
+    (B, "\t\treturn s, params, fmt.Errorf(\"unable to render operator [%s]\", e.Op)", "\t\treturn s, params, fmt.Errorf(\"unable to render operator [%s]\", e.Op)\n\t}\n\tif len(lparams)+len(rparams) > 32767 {\n\t\treturn s, params, fmt.Errorf(\"too many bind parameters\")"),
+], "a limit on the number of parameters exists on the parameterized path only")
+v("break-c09-reduce-twice-after-group", "break", "C09", "REDUCE-ONCE", [
+    (P, "\t\t\tp.stack = append(p.stack, top...)\n\t\t\treturn nil\n", "\t\t\tp.stack = append(p.stack, top...)\n\t\t\tif tok, isTok := s.(lex.Token); isTok && tok.Typ == lex.TLParen && len(p.stack) >= 2 {\n\t\t\t\ttop = []any{}\n\t\t\t\tcontinue\n\t\t\t}\n\t\t\treturn nil\n"),
+], "after a group closes the reduce method goes on reducing without the lookahead being consulted")
+v("break-c12-power-rounded", "break", "C12", "JSON-ATTR", [
+    (E, "\t\tc.BoostPower = &e.boostPower\n", "\t\trounded := float64(int(e.boostPower*100)) / 100\n\t\tc.BoostPower = &rounded\n"),
+], "the encoder writes a rounded boost power")
+
 def main():
     os.makedirs(OUT, exist_ok=True)
     for f in os.listdir(OUT):
